@@ -13,20 +13,28 @@ import (
 
 // packages whose init functions are executed (concretely) before a harness runs
 var initAllow = map[string]bool{
-	"io":              true,
-	"context":         true,
-	"strconv":         true,
-	"unicode/utf8":    true,
-	"math/bits":       true,
-	"encoding/base64": true,
-	"encoding/binary": true,
-	"internal/bytealg": true,
-	"internal/stringslite": true,
-	"google.golang.org/grpc/codes":                     true,
-	"google.golang.org/grpc/metadata":                  true,
-	"google.golang.org/grpc/status":                    true,
-	"google.golang.org/grpc/internal/status":           true,
-	"google.golang.org/grpc/mem":                       true,
+	"sync":                                   true,
+	"io":                                     true,
+	"strings":                                true,
+	"bytes":                                  true,
+	"unicode":                                true,
+	"sort":                                   true,
+	"slices":                                 true,
+	"maps":                                   true,
+	"math":                                   true,
+	"context":                                true,
+	"strconv":                                true,
+	"unicode/utf8":                           true,
+	"math/bits":                              true,
+	"encoding/base64":                        true,
+	"encoding/binary":                        true,
+	"internal/bytealg":                       true,
+	"internal/stringslite":                   true,
+	"google.golang.org/grpc/codes":           true,
+	"google.golang.org/grpc/metadata":        true,
+	"google.golang.org/grpc/status":          true,
+	"google.golang.org/grpc/internal/status": true,
+	"google.golang.org/grpc/mem":             true,
 	"google.golang.org/genproto/googleapis/rpc/status": true,
 	"google.golang.org/protobuf/types/known/anypb":     true,
 	"golang.org/x/sync/errgroup":                       true,
